@@ -39,6 +39,8 @@ def rexpr(e):
         return 'ERL'
     if k == 'u':
         return '(%s%s)' % ('-' if e['o'] == '-' else 'NOT ', rexpr(e['a']))
+    if k == 'fn':
+        return e['f'] + ('(%s)' % ','.join(rexpr(a) for a in e['args']) if e['args'] else '')
     o = e['o']
     return '(%s%s%s)' % (rexpr(e['a']), ' %s ' % o if o in ('MOD', 'AND', 'OR') else o, rexpr(e['b']))
 
@@ -86,6 +88,12 @@ def rstmt(st, rest=None):
         return '%s %s' % (TRAPSTMT[st['k']], st['c'])
     if op == 'ONTRAP':
         return ONTRAP[st['k']] % st['n']
+    if op == 'CLEAR':
+        return 'CLEAR'
+    if op == 'RUN':
+        return 'RUN %d' % st['n'] if st['n'] else 'RUN'
+    if op == 'DEFFN':
+        return 'DEF %s%s=%s' % (st['f'], '(%s)' % ','.join(st['ps']) if st['ps'] else '', rexpr(st['e']))
     if op == 'REM':
         return "REM x:PRINT 99"
     raise ValueError(op)
@@ -146,12 +154,21 @@ class Gen(object):
         self.n = 0
         self.subs = []            # line numbers of subroutines (filled when laid out)
         self.budget = 0
+        self.fnsig = {}           # function name -> number of parameters (known to the generator so far)
+        self.fndepth = 0
 
     # ---- expressions ----
     def small(self):
         return self.r.choice([0, 1, 2, 3, -1, -2, 5, 7, 10])
 
     def atom(self):
+        if 'fn' in self.p and self.fnsig and self.r.random() < 0.3 and self.fndepth < 2:
+            f = self.r.choice(sorted(self.fnsig))
+            self.fndepth += 1
+            e = {'k': 'fn', 'f': f, 'args': [self.r.choice([self.atom(), C(self.r.choice([0, 1, 5, -3, 32767, 40000]))])
+                                              for _ in range(self.fnsig[f])]}
+            self.fndepth -= 1
+            return e
         if self.r.random() < 0.55:
             return V(self.r.choice(ALLVARS))
         return C(self.small())
@@ -219,17 +236,24 @@ class Gen(object):
                 self.data_stmt()
             elif fam == 'trap':
                 self.trap_stmt()
+            elif fam == 'reset':
+                pre = [self.simple()] if self.r.random() < 0.4 else []
+                post = [self.simple()] if self.r.random() < 0.4 else []
+                if self.r.random() < 0.75:
+                    self.line(pre + [{'op': 'CLEAR'}] + post)
+                else:
+                    self.line(pre + [{'op': 'RUN', 'n': self.r.choice([('tail', 0), ('tail', 0), 64000])}])
             elif fam == 'stray':
                 self.line([self.r.choice([{'op': 'NEXT', 'vs': []}, {'op': 'WEND'}, {'op': 'RETURN', 'n': 0},
                                           {'op': 'NEXT', 'vs': ['I']}, {'op': 'GOTO', 'n': 64000}])])
 
-    WEIGHTS = {'simple': 30, 'for': 20, 'while': 8, 'if': 12, 'gosub': 8, 'on': 6, 'err': 0, 'data': 0, 'trap': 0, 'stray': 0}
+    WEIGHTS = {'reset': 0, 'simple': 30, 'for': 20, 'while': 8, 'if': 12, 'gosub': 8, 'on': 6, 'err': 0, 'data': 0, 'trap': 0, 'stray': 0}
 
     def pick_family(self, depth):
         if depth >= 3:
             return 'simple'
         w = dict(self.WEIGHTS)
-        for f in ('err', 'data', 'trap'):
+        for f in ('err', 'data', 'trap', 'reset'):
             if f in self.p:
                 w[f] = 8
         if 'stray' in self.p:
@@ -366,6 +390,27 @@ class Gen(object):
                     self.line([{'op': 'TRAP', 'k': k, 'c': self.r.choice(['ON', 'ON', 'ON', 'STOP'])}])
         if 'err' in self.p and self.r.random() < 0.75:
             self.line([{'op': 'ONERR', 'n': ('handler', 0)}])
+        self.fnsig = {}
+        if 'fn' in self.p:
+            if self.r.random() < 0.3:
+                self.fnsig['FNZ'] = 1            # called but (maybe) never defined: Undefined user function
+            for f in self.r.sample(['FNA', 'FNB', 'FNK%', 'FNR'], self.r.randint(1, 4)):
+                np_ = self.r.randint(0, 2)
+                ps = self.r.sample(ALLVARS, np_)
+                known = dict(self.fnsig)
+                if f == 'FNR' and self.r.random() < 0.5:
+                    known[f] = np_               # a function that calls itself
+                old, self.fnsig = self.fnsig, known
+                body = self.expr(2)
+                if ps and self.r.random() < 0.4:
+                    body = B(self.r.choice(['+', '-', '*']), V(ps[0]), body if self.r.random() < 0.7 else C(2))
+                if ps and self.r.random() < 0.15:
+                    body = V(ps[0])
+                self.fnsig = old
+                self.line([{'op': 'DEFFN', 'f': f, 'ps': ps, 'e': body}])
+                self.fnsig[f] = np_
+                if self.r.random() < 0.3:
+                    self.line([self.simple()])
         if 'data' in self.p and self.r.random() < 0.5:
             self.line([{'op': 'DATA', 'items': [{'num': True, 'v': self.r.randint(0, 50)} for _ in range(self.r.randint(1, 3))]}])
         self.block(0, None)
@@ -403,6 +448,22 @@ class Gen(object):
             self.n += 10
             marks[('handler', 0)] = self.n + 1
             self.handler_body(0)
+        if 'reset' in self.p:
+            # tail section entered by RUN n: shows that nothing survived, then ends
+            self.line([{'op': 'END'}])
+            self.n += 10
+            marks[('tail', 0)] = self.n + 1
+            self.line([{'op': 'PRINT', 'e': C(55)}] + [{'op': 'PRINT', 'e': V(v)} for v in self.r.sample(ALLVARS, 2)])
+            r = self.r.random()
+            if r < 0.3:
+                self.line([{'op': 'RETURN', 'n': 0}])
+            elif r < 0.5:
+                self.line([{'op': 'NEXT', 'vs': []}])
+            elif r < 0.65:
+                self.line([{'op': 'READ', 'vs': [self.r.choice(ALLVARS)]}, {'op': 'PRINT', 'e': V('A')}])
+            elif r < 0.8:
+                self.line([{'op': 'ERROR', 'e': C(9)}])
+            self.line([{'op': 'END'}])
         if 'data' in self.p and self.r.random() < 0.6:
             self.line([{'op': 'DATA', 'items': [{'num': True, 'v': self.r.randint(0, 50)} for _ in range(self.r.randint(1, 3))]}])
         return self.resolve(marks)
@@ -433,7 +494,7 @@ class Gen(object):
                 if 'ns' in st:
                     st['ns'] = [fix(t, idx) for t in st['ns']]
                 st.pop('fix_on', None)
-        prog = {'lines': self.lines, 'vars': list(ALLVARS), 'ints': list(IVARS)}
+        prog = {'lines': self.lines, 'vars': list(ALLVARS), 'ints': list(IVARS) + ['FNK%']}
         text = render(prog)      # also sets the col flags
         return prog, text
 
